@@ -484,10 +484,20 @@ Fixpoint wf (lin : Z -> rdd) (r : rdd) : Prop :=
   | Sample _ _ r' => wf lin r'
   end.
 
-(* every cache entry (id, i) holds the data of partition i of the dataset with that id *)
-Definition cache_ok (lin : Z -> rdd) (parts : list (list Z)) (c : cache) : Prop :=
-  forall k d, In (k, d) c ->
+(* every cache entry (id, i) of a dataset in [S] holds the data of partition i of the dataset with that id *)
+Definition cache_ok_on (S : Z -> Prop) (lin : Z -> rdd) (parts : list (list Z)) (c : cache) : Prop :=
+  forall k d, In (k, d) c -> S (fst k) ->
     exists n p, snd k = Z.of_nat n /\ nth_error parts n = Some p /\ d = eval (lin (fst k)) (snd k) p.
+Definition cache_ok (lin : Z -> rdd) (parts : list (list Z)) (c : cache) : Prop :=
+  cache_ok_on (fun _ => True) lin parts c.
+
+(* the persisted datasets of a lineage *)
+Fixpoint ids (r : rdd) : list Z :=
+  match r with Src => [] | Map _ r' => ids r' | Sample _ _ r' => ids r' | Persist id r' => id :: ids r' end.
+
+(* PersistedRDD.unpersist on the driver: cache_manager.delete((id, p.index)) for every partition p *)
+Definition c_unpersist (n : nat) (id : Z) (c : cache) : cache :=
+  filter (fun kv => negb ((fst (fst kv) =? id) && (0 <=? snd (fst kv)) && (snd (fst kv) <? Z.of_nat n))) c.
 
 (* what the job returns when every partition is evaluated on its own: per partition, in partition order *)
 Definition spec_results (r : rdd) (tf : tfun) (parts : list (list Z)) : list (option (list Z)) :=
@@ -512,6 +522,29 @@ Fixpoint run_jobs_local (v : variant) (js : list jobspec) (parts : list (list Z)
       let '(res, d, sh') := run_local v r tf parts driver sh in
       let '(rs, d') := run_jobs_local v js' parts d sh' in
       (res :: rs, d')
+  end.
+
+(* histories with unpersist() between the jobs *)
+Inductive step := SJob (j : jobspec) | SUnpersist (id : Z).
+Fixpoint run_steps (b : backend) (v : variant) (ss : list step) (parts : list (list Z)) (driver : cache) (sh : shared)
+  : list (list (option (list Z))) * cache :=
+  match ss with
+  | [] => ([], driver)
+  | SJob (r, tf, sched) :: ss' =>
+      let o := run_job b v r tf parts sched driver sh in
+      let '(rs, d) := run_steps b v ss' parts (o_driver o) (o_shared o) in
+      (o_results o :: rs, d)
+  | SUnpersist id :: ss' => run_steps b v ss' parts (c_unpersist (length parts) id driver) sh
+  end.
+Fixpoint run_steps_local (v : variant) (ss : list step) (parts : list (list Z)) (driver : cache) (sh : shared)
+  : list (list (option (list Z))) * cache :=
+  match ss with
+  | [] => ([], driver)
+  | SJob (r, tf, _) :: ss' =>
+      let '(res, d, sh') := run_local v r tf parts driver sh in
+      let '(rs, d') := run_steps_local v ss' parts d sh' in
+      (res :: rs, d')
+  | SUnpersist id :: ss' => run_steps_local v ss' parts (c_unpersist (length parts) id driver) sh
   end.
 
 End WithDraws.
